@@ -99,7 +99,12 @@ def render_lex(root):
         return _esc(s[:h]) + '<?ncs cue?>' + _esc(s[h:])
 
     def el(e):
-        out = ['<', e.tag]
+        tag, decl = e.tag, ''
+        if tag.startswith('{'):
+            # universal name {uri}local: a prefixed name with the declaration on the element itself
+            uri, local = tag[1:].split('}', 1)
+            tag, decl = 'v%d:%s' % (len(uri) % 7, local), " xmlns:v%d='%s'" % (len(uri) % 7, _esc(uri))
+        out = ['<', tag, decl]
         for k, v in e.attrib.items():
             out.append(" %s = '%s'" % (k, _esc(v).replace("'", '&apos;').replace('\n', '&#10;')
                                         .replace('\r', '&#13;').replace('\t', '&#09;')))
@@ -110,7 +115,7 @@ def render_lex(root):
         for c in e:
             out.append(el(c))
             out.append(chars(c.tail))
-        out.append('</%s>' % e.tag)
+        out.append('</%s>' % tag)
         return ''.join(out)
     return '<?xml version="1.0" encoding="UTF-8"?>\n<!-- lexical variant -->\n' + el(root) + '\n<?end x?>'
 
